@@ -143,6 +143,8 @@ def resolve_locals(parts, fn, resolver, depth=0):
 def check(run):
     check_names(run, "R15.1", "R15.2")
     check_rest(run)
+    from .. import derived as _derived
+    _derived.report(run, "R15.7", ["CDNS::Writer<std::basic_string<char>>", "CDNS::Writer<int>", "CDNS::CdnsEncoder", "CDNS::CborOutputWriter", "CDNS::GzipCborOutputWriter", "CDNS::XzCborOutputWriter", "CDNS::CdnsExporter"])
     # a file published under its final name ends with the closing break whenever it holds a block (R02.3/R02.4 imported)
     from . import C02 as _C02, C06 as _C06
     _C02.check_framing(_C06._Renamed(run, {"R02.3": "R15.6", "R02.4": "R15.6"}))
